@@ -104,7 +104,11 @@ CLAIMED = {
              "the result (known_findings.txt).", design="5/C04",
         technique="Coq proof (bit-level round trip by induction over field arrays and masks) + extracted-model correspondence"),
     "C09": dict(
-        text="Theorems C09_every_schedule / C09_final_configuration / C09_frames (axiom-free) over the network reader -> framer -> "
+        text="Theorems C09_framer_is_incremental / C09_incremental_pipeline (axiom-free): the framer as a machine that is given one byte "
+             "at a time (IncFrame.v) delivers exactly what the model's stream handler delivers, and with that machine as the "
+             "framer process every schedule delivers those messages to every consumer; C09_source_shape: the regenerated facts "
+             "that the fan-out loop has the transcribed shape and that the framer reads its input only through the byte "
+             "channel and knows no clock. Theorems C09_every_schedule / C09_final_configuration / C09_frames (axiom-free) over the network reader -> framer -> "
              "fan-out -> k consumers of Pipe.v under the interleaving semantics of Net.v (bounded FIFO channels, blocking send "
              "and receive, close): for ANY framing state machine, input, number of consumers (any of them nil) and channel "
              "capacities >= 1 there is a bound n such that every execution under every schedule has at most n steps, can always "
@@ -205,7 +209,8 @@ CLAIMED = {
              "operations form a legal sequential history in which each operation lies between its call and return, every "
              "result handed to a goroutine is its operation's result in that history, every snapshot is the last min(N,k) of "
              "the first k additions in commit order (a contiguous run consistent with real time), and the queue never exceeds "
-             "N. The facts queue_add_locked / queue_get_locked (Add/GetMessages run entirely under the write/read lock and do "
+             "N; C18_no_deadlock: whenever some goroutine has not finished, some goroutine can step (also under Go's rule that a "
+             "waiting writer keeps new readers out). The facts queue_add_locked / queue_get_locked (Add/GetMessages run entirely under the write/read lock and do "
              "not re-acquire it, directly or through a callee) are regenerated from the source by genfacts; if either is false "
              "the theorems no longer build. Correspondence: all add/snapshot sequences up to length 8 for capacities 1..4 "
              "(thorough 12 / 1..8), runs of 10^5 adds; concurrent adders and readers under the race detector with a progress "
